@@ -337,6 +337,13 @@ def r5_unbounded_constructor_gets_fixed_errors(ctx):
                 continue
             if l.kind == "const":
                 continue
+            if l.kind == "call" and re.search(r"ErrorObject::<'.*>::owned$", l.detail["callee"] or "") and len(l.detail["args"]) >= 3:
+                # owned(code, message, None): no run-time data attached; the message must be a constant as well
+                wb = F.bodies[l.where]
+                d3 = tr.origins(wb, l.detail["args"][2])
+                m3 = tr.origins(wb, l.detail["args"][1])
+                if d3 and all(x.kind == "agg" and x.detail.get("variant") == "None" for x in d3) and m3 and all(x.kind in ("const",) or (x.kind == "call" and re.search(r"ErrorCode::message$", x.detail["callee"] or "")) for x in m3):
+                    continue
             bad.append(flow.leaf_str(l)[:80])
         R.check(bool(lv) and not bad, "C08.R5", "%s:error@%d" % (fkey(b), sorted(x.bb for x in b.calls_to(r"MethodResponse::error$")).index(c.bb)), "the unbounded MethodResponse::error gets a fixed library error object", "%s hands MethodResponse::error an error object built from %s: this constructor applies no size limit, so run-time data in the error (a panic message, echoed input) produces a response larger than max_response_body_size" % (short(b.path), bad), where(c))
     R.floor("C08.R5", n, 10, "MethodResponse::error sites")
